@@ -57,6 +57,9 @@ func (f *Frame) call(bi *BInfo, c *ssa.CallCommon, site ssa.Value, resT types.Ty
 	if res, ok := f.funcValueHook(bi, c, fvT, args); ok {
 		return res
 	}
+	if res, ok := f.paramFuncHook(bi, c, args); ok {
+		return res
+	}
 	return f.uninterpResults(fvT.S, sig, args)
 }
 
